@@ -189,7 +189,7 @@ def run(repo: Repo, chk: Check) -> None:
             a = atom_name(c)
             if a is None:
                 raise AnalysisError(f'_is_transient_response: unrecognised atom {vrepr(c)}')
-            val[a] = b
+            val[a] = atom_value(c, b)
         for e in p.events:
             if isinstance(e, tuple) and e[0] == 'atom':
                 val[e[1]] = e[2]
@@ -215,7 +215,7 @@ def run(repo: Repo, chk: Check) -> None:
 
 
 NERR = 2  # the error list is abstracted to two representative elements: the verdict must not depend on their order
-ATOMS = ['json', 'parses', 'list', 'marker'] + [f'{a}{i}' for i in range(NERR) for a in ('isdict', 'proto', 'temporary')]
+ATOMS = ['json', 'parses', 'list', 'nonempty', 'marker'] + [f'{a}{i}' for i in range(NERR) for a in ('isdict', 'proto', 'temporary')]
 
 
 def feasible(v: Dict[str, bool]) -> bool:
@@ -223,7 +223,11 @@ def feasible(v: Dict[str, bool]) -> bool:
         return False
     if v['parses'] and not v['json']:
         return False
+    if v['nonempty'] and not v['list']:
+        return False
     for i in range(NERR):
+        if (v[f'isdict{i}'] or v[f'proto{i}'] or v[f'temporary{i}']) and not v['nonempty']:
+            return False  # an empty list has no elements to speak of
         if (v[f'proto{i}'] or v[f'temporary{i}']) and not v['list']:
             return False
         if (v[f'proto{i}'] or v[f'temporary{i}']) and not v[f'isdict{i}']:
@@ -255,7 +259,14 @@ def atom_name(c: Any):
         return 'temporary' + idx
     if s.startswith('in(') and 'prevalidator.ml' in s:
         return 'marker'
+    if s == '$body':
+        return 'nonempty'  # truthiness of the decoded list
     return None
+
+
+def atom_value(c: Any, b: bool) -> bool:
+    """the value of the atom under which the path runs: a test written with the negated operator (`!=`, `not in`) stands for the opposite value"""
+    return (not b) if isinstance(c, App) and c.op in ('!=', 'not in', 'is not') else b
 
 
 JSON_ERR = 'requests.exceptions.JSONDecodeError'
@@ -323,6 +334,6 @@ class TransientHooks(Hooks):
 
 
 def controls(chk: Check) -> None:
-    v = dict({a: False for a in ATOMS}, json=True, parses=True, list=True, isdict0=True, temporary0=True)
+    v = dict({a: False for a in ATOMS}, json=True, parses=True, list=True, nonempty=True, isdict0=True, temporary0=True)
     if reference_transient(v) is not True or reference_transient(dict(v, isdict1=True, proto1=True)) is not False:
         raise AnalysisError('reference transient table broken')
